@@ -2,6 +2,7 @@ use chrono::{DateTime, FixedOffset};
 use lazy_static::lazy_static;
 use regex::Regex;
 use std::borrow::Cow;
+use std::fmt::Write as _;
 use unicode_width::UnicodeWidthStr;
 
 use crate::ansi::measure_text_width;
@@ -274,7 +275,16 @@ pub fn format_blame_metadata(
         let field = match placeholder.placeholder {
             Some(Placeholder::Str("timestamp")) => {
                 Some(Cow::from(match &config.blame_timestamp_output_format {
-                    Some(time_format) => blame.time.format(time_format).to_string(),
+                    Some(time_format) => {
+                        // `to_string` would panic when the format string is invalid.
+                        let mut formatted = String::new();
+                        if write!(formatted, "{}", blame.time.format(time_format)).is_err() {
+                            fatal(format!(
+                                "Invalid value for blame-timestamp-output-format: {time_format}"
+                            ));
+                        }
+                        formatted
+                    }
                     None => chrono_humanize::HumanTime::from(blame.time).to_string(),
                 }))
             }
